@@ -513,6 +513,15 @@ type report struct {
 	Key   string
 }
 
+// altRepo: (experiments only) the checkout of go-res that the harness was built against
+// instead of /repo, see VERIF_REPO in bin/check.
+var altRepo = func() string {
+	if d := os.Getenv("VERIF_REPO"); d != "" {
+		return strings.TrimSuffix(d, "/") + "/"
+	}
+	return ""
+}()
+
 var frameRe = regexp.MustCompile(`(?m)^  (\S+)\(.*\)\n\s+(\S+):\d+`)
 
 func parseReports(text string) []report {
@@ -542,7 +551,7 @@ func parseReports(text string) []report {
 		r.Kind = "dependency"
 		for i, f := range r.Files {
 			switch {
-			case strings.HasPrefix(f, "/repo/") && !strings.HasSuffix(f, "_test.go"):
+			case (strings.HasPrefix(f, "/repo/") || altRepo != "" && strings.HasPrefix(f, altRepo)) && !strings.HasSuffix(f, "_test.go"):
 				r.Kind = "gores"
 			case strings.Contains(r.Tops[i], "scratchTouch") || strings.Contains(r.Tops[i], "scratchRead"):
 				r.Kind = "gores"
